@@ -6,8 +6,10 @@ import Zc.Model.RespSpec
 (20–500 ms aggregation, 1 s flood protection); they leave later, from a timer.  For the clause "after a service is
 updated or unregistered replies reflect only the new state" the only thing that matters about the queues is *that*
 a reply may still be pending when the registry changes, and what the API calls do to pending replies:
-`async_update_service` (`_core.py:366-371`) does nothing to them, `async_unregister_service` drops the
-withdrawn records (`async_remove_answers`, the D5 repair; records are taken from the registered object).
+`async_update_service` does nothing to them, `async_unregister_service` drops the withdrawn records
+(`async_remove_answers`, the D5 repair).  **The code takes those records from the `ServiceInfo` it is handed, this model
+from the registered object** (`HostOp.unregister` carries keys only): the model is the call through the registered object
+or an equal copy; a handle whose records differ is finding R3-C03-a (outside this layer, driven on the simulated host).
 Timing and grouping of the queues are C12's and C08's subject.  An attribute write followed by
 `async_update_service` is expressed as `update` with the new fields here.  This layer is not driven by the
 correspondence harness (the simulated-host stream judges the implementation's datagrams with the oracle). -/
